@@ -24,8 +24,8 @@
 (***************************************************************************)
 EXTENDS Naturals, Sequences, FiniteSets, TLC, Json
 
-CONSTANTS Depth,      \* chains of exactly this many templates (1..4)
-          Stride, Offset,   \* sampling of the chains: keep chain number k iff k % Stride = Offset
+CONSTANTS Depths,     \* chains of these many templates (subset of 1..4)
+          SampleFrom, Stride, Offset,   \* sampling of the chains of SampleFrom or more templates: keep chain number k iff k % Stride = Offset
           Guarded,    \* TRUE: the rewrite rules carry their guards; FALSE: the naive rules (defect domain, model only)
           Rules,      \* "DE": documented + PEP 585 extras (what modernize MAY do);  "D": the documented six only
           Emit
@@ -67,7 +67,7 @@ IsNone(n) == n.t = "Const" /\ n.op = "none"
 
 \* ================================================================================================
 \* The module the annotation is stored in (its header is written by the driver from this table).
-\*   import typing / import typing as t / import typing_extensions as te / import collections.abc as cabc
+\*   import typing / import typing as t / import typing_extensions as te / import collections.abc / import collections.abc as cabc
 \*   from typing import Callable, ClassVar, Dict, FrozenSet, Iterator, List, Literal, Optional, Set, Tuple, Type, Union
 \*   from typing import List as L, Optional as Opt, Union as U, Tuple as Tup
 \*   from collections.abc import Generator
@@ -103,10 +103,12 @@ Doc585 == {"List", "Dict", "Set", "Tuple"}
 
 \* ================================================================================================
 \* Cases: chains of one-slot templates.  shape = [f form, h head, sp spelling]
-\*   sp: "n" from-import name, "as" renamed import, "t" "typing" "te" "cabc" module attribute, "ns" shadowing local class
+\*   sp: "n" from-import name, "as" renamed import, "t" "typing" "te" "cabc" module attribute, "col" collections.abc.X,
+\*       "ns" shadowing local class
 \* ================================================================================================
 Sh(f, h, sp) == [f |-> f, h |-> h, sp |-> sp]
-H(x, sp) == CASE sp = "n" -> Nm(x) [] sp = "as" -> Nm(AsName[x]) [] OTHER -> At(Nm(sp), x)
+H(x, sp) == CASE sp = "n" -> Nm(x) [] sp = "as" -> Nm(AsName[x]) [] sp = "col" -> At(At(Nm("collections"), "abc"), x)   \* collections.abc.X
+               [] OTHER -> At(Nm(sp), x)
 Leaf(x) ==
   CASE x = "int" -> Nm("int")
     [] x = "K" -> Nm("K")
@@ -121,7 +123,12 @@ Leaf(x) ==
     [] x = "LitK" -> Sub(Nm("Literal"), Str(Nm("K")))                           \* Literal["K"]
     [] x = "TLitK1" -> Sub(At(Nm("t"), "Literal"), TupN(<<Str(Nm("K")), IntC>>)) \* t.Literal["K", 1]
     [] x = "list" -> Sub(Nm("list"), Nm("int"))                                 \* list[int]: modern already
-Leaves == {"int", "K", "None", "StrK", "StrOptK", "StrListStr", "BareList", "TList", "NsTuple", "NsK2", "LitK", "TLitK1", "list"}
+    \* values (stored as `v = ...`, only as a whole case): calls and their keywords have canonical paths too
+    [] x = "CallKw" -> N("Call", "", <<Nm("Box"), Nm("K"), N("keyword", "k", <<Nm("J")>>)>>)                       \* Box(K, k=J)
+    [] x = "TCast" -> N("Call", "", <<At(Nm("t"), "cast"), Nm("K"), N("keyword", "k", <<Nm("L")>>)>>)              \* t.cast(K, k=L)
+    [] x = "NsF" -> N("Call", "", <<At(Nm("ns"), "f"), Nm("int"), N("keyword", "k", <<At(Nm("ns"), "K2")>>)>>)     \* ns.f(int, k=ns.K2)
+ValueLeaves == {"CallKw", "TCast", "NsF"}
+Leaves == ValueLeaves \cup {"int", "K", "None", "StrK", "StrOptK", "StrListStr", "BareList", "TList", "NsTuple", "NsK2", "LitK", "TLitK1", "list"}
 Tmpl(s) ==
   LET hd == H(s.h, s.sp) IN
   CASE s.f = "leaf" -> Leaf(s.h)
@@ -141,13 +148,13 @@ SlotPath(f) == CASE f = "U1" -> <<2>> [] f \in {"A2", "E2", "G3", "DL", "UO"} ->
 
 Heads(f) ==      \* head x spelling pairs of every form
   CASE f = "U1" -> ({"Optional", "List"} \X {"n", "as", "t", "typing", "te", "ns"}) \cup ({"Set", "Type", "Union"} \X {"n", "t"})
-                   \cup ({"ClassVar"} \X {"n", "t", "te", "ns"}) \cup ({"Iterator"} \X {"n", "t", "cabc", "ns"})
+                   \cup ({"ClassVar"} \X {"n", "t", "te", "ns"}) \cup ({"Iterator"} \X {"n", "t", "cabc", "col", "ns"})
                    \cup ({"FrozenSet", "Box", "list", "set"} \X {"n"})
     [] f = "A2" -> ({"Dict"} \X {"n", "t", "ns"}) \cup ({"Union", "Tuple"} \X {"n", "as", "t", "te", "ns"}) \cup ({"dict", "tuple"} \X {"n"})
     [] f = "B2" -> {<<"Dict", "n">>, <<"Union", "n">>, <<"Union", "as">>}
     [] f = "M3" -> {"Union"} \X {"n", "t", "ns"}
     [] f = "E2" -> ({"Tuple"} \X {"n", "t", "ns"}) \cup {<<"tuple", "n">>}
-    [] f = "G3" -> {"Generator"} \X {"n", "t", "cabc", "ns"}
+    [] f = "G3" -> {"Generator"} \X {"n", "t", "cabc", "col", "ns"}
     [] OTHER -> {<<"", "">>}                                      \* OrL OrR DL UO CL: fixed text
 Forms == {"U1", "A2", "B2", "M3", "E2", "G3", "OrL", "OrR", "DL", "UO", "CL"}
 Slotted == UNION {{Sh(f, hs[1], hs[2]) : hs \in Heads(f)} : f \in Forms}
@@ -161,9 +168,10 @@ ValidEdge(p, c) ==
   /\ p.f \in {"OrL", "OrR"} => ~(c.f = "leaf" /\ c.h \in StrLeaves)
   /\ p.f = "OrL" => ~(c.f = "leaf" /\ c.h = "None")
 IsChain(ch) ==
-  /\ Len(ch) = Depth
+  /\ Len(ch) \in Depths
   /\ \A i \in 1..Len(ch) : IF i = Len(ch) THEN ch[i] \in LeafShapes ELSE ch[i] \in Slotted
   /\ \A i \in 1..(Len(ch) - 1) : ValidEdge(ch[i], ch[i + 1])
+  /\ ch[Len(ch)].h \in ValueLeaves => Len(ch) = 1
 
 RECURSIVE Compose(_)
 Compose(ch) == IF Len(ch) = 1 THEN Tmpl(ch[1]) ELSE EBn!Plug(Tmpl(ch[1]), SlotPath(ch[1].f), Compose(Tail(ch)))
@@ -172,7 +180,7 @@ HasStr(n) == IsRawStr(n) \/ \E i \in 1..Len(n.kids) : HasStr(n.kids[i])
 
 \* chain number (sampling): a linear hash of the shape indices, independent of TLC's enumeration order
 FormNo == [U1 |-> 1, A2 |-> 2, B2 |-> 3, M3 |-> 4, E2 |-> 5, G3 |-> 6, OrL |-> 7, OrR |-> 8, DL |-> 9, UO |-> 10, CL |-> 11, leaf |-> 12]
-SpNo == [n |-> 1, as |-> 2, t |-> 3, typing |-> 4, te |-> 5, ns |-> 6, cabc |-> 7]
+SpNo == [n |-> 1, as |-> 2, t |-> 3, typing |-> 4, te |-> 5, ns |-> 6, cabc |-> 7, col |-> 8]
 HeadNo(h) == CASE h \in {"Optional", "int"} -> 1 [] h \in {"List", "K"} -> 2 [] h \in {"Set", "None"} -> 3 [] h \in {"Type", "StrK"} -> 4
                [] h \in {"Union", "StrOptK"} -> 5 [] h \in {"ClassVar", "StrListStr"} -> 6 [] h \in {"Iterator", "BareList"} -> 7
                [] h \in {"FrozenSet", "TList"} -> 8 [] h \in {"Box", "NsTuple"} -> 9 [] h \in {"list", "NsK2"} -> 10 [] h \in {"set", "LitK"} -> 11
@@ -180,7 +188,7 @@ HeadNo(h) == CASE h \in {"Optional", "int"} -> 1 [] h \in {"List", "K"} -> 2 [] 
 ShapeNo(s) == FormNo[s.f] * 131 + HeadNo(s.h) * 17 + (IF s.sp = "" THEN 0 ELSE SpNo[s.sp])
 RECURSIVE ChainNo(_)
 ChainNo(ch) == IF ch = <<>> THEN 0 ELSE (ShapeNo(ch[1]) + 7 * ChainNo(Tail(ch))) % 1000003
-Sampled(ch) == Stride = 1 \/ ChainNo(ch) % Stride = Offset
+Sampled(ch) == Stride = 1 \/ Len(ch) < SampleFrom \/ ChainNo(ch) % Stride = Offset
 
 \* ================================================================================================
 \* Reference of the observations (what each public operation must return on `expr`)
@@ -323,6 +331,7 @@ Den(n, lit) ==
             ELSE IF a = "Optional" THEN UnionOf(Append(ds, <<"c", <<"none">>>>))
             ELSE IF a = "Literal" THEN <<"l", ds>>
             ELSE <<"g", Origin(c), ds>>
+    [] n.t = "Call" -> <<"na">>                       \* a value, not a type
     [] OTHER -> <<"err">>
 
 \* the canonical paths of the names of a term, in order, the rewritable aliases and their builtin targets left out
@@ -358,7 +367,7 @@ RendersRight(n) ==   \* a term renders as ExprBuild's reference demands: no defe
 
 Init ==
   /\ P0 \in BOOLEAN
-  /\ \E body \in [1..(Depth - 1) -> Slotted], lf \in LeafShapes : chain = body \o <<lf>>
+  /\ \E d \in Depths : \E body \in [1..(d - 1) -> Slotted], lf \in LeafShapes : chain = body \o <<lf>>
   /\ IsChain(chain) /\ Sampled(chain)
   /\ tree = <<>> /\ pc = "source" /\ built = <<>> /\ expr = <<>> /\ obs = <<>> /\ nf = <<>> /\ den0 = <<>> /\ keep0 = <<>>
   /\ cur = <<>> /\ cden = <<>> /\ ckeep = <<>> /\ crend = <<>> /\ cred = {}
@@ -443,6 +452,6 @@ EmitCase ==
   (Emit /\ Mod) =>
      IF cur = expr
      THEN PrintT(<<"CASE", ToJson([k |-> "case", id |-> CaseId, tree |-> tree, expr |-> expr, obs |-> obs, nf |-> nf, den |-> den0,
-                                   keep |-> keep0, cur |-> cur, terminal |-> cred = {}, dnormal |-> AllRedexes(cur, "D") = {}])>>)
+                                   keep |-> keep0, terminal |-> cred = {}, dnormal |-> AllRedexes(cur, "D") = {}])>>)
      ELSE PrintT(<<"CASE", ToJson([k |-> "step", id |-> CaseId, cur |-> cur, terminal |-> cred = {}, dnormal |-> AllRedexes(cur, "D") = {}])>>)
 =============================================================================
